@@ -195,6 +195,8 @@ type GhostFunc struct {
 }
 
 type Lemma struct {
+	IndVar  string // induction variable (integer), "" if none
+	IndFrom Expr
 	Name    string
 	Props   []string
 	E       Expr
@@ -224,6 +226,7 @@ type FuncContract struct {
 	NoVerify  bool            // contract only used by callers (body not checked): counts as assumed
 	ResNames  []string        // names for results (from header)
 	Opts      map[string]string
+	Uses      []string // lemmas assumed at function entry
 	SrcFile   string
 	HeaderPos string
 }
